@@ -801,6 +801,13 @@ def check_fmt_spec(ctx, unit):
         def leaf(x, depth=0):
             x = x.strip()
             v = flow._var_of(x)
+            if v is not None and v not in recorded and v not in ivars and depth < 6:
+                # a named intermediate (`const size_t spec_size = i - start - 1;`) stands for its initialiser
+                i0 = RA.local_inits(f).get(v)
+                if i0 is not None and not RA._reassigned(f, v):
+                    p0 = to_poly(i0, lambda y: leaf(y, depth + 1))
+                    if p0 is not None:
+                        return p0
             if v is not None:
                 return Poly.sym("v%d" % v)
             if x.is_call() and x.callee and x.callee["n"] == "size" and x.callee.get("cls") == "frg::basic_string_view":
@@ -1031,6 +1038,31 @@ def check_sized_text(ctx, unit, rule="T.sized-text-complete"):
                     continue
                 with_len = any(y.kind == "CXXMemberCallExpr" and y.callee and y.callee["n"] == "size"
                                for b in args if b is not a for y in b.walk())
+                if not with_len:
+                    # ... or a count computed from size() earlier: a local or a member that was initialised / assigned from it
+                    # (`: _length{view.size()} { memcpy(_buffer, view.data(), sizeof(Char) * _length); }`)
+                    sized = set()
+                    for y in f.all_nodes():
+                        w_ = write_of(y)
+                        tgt_, src_ = None, None
+                        if w_ and w_[0] is not None and w_[1] is not None:
+                            tgt_, src_ = w_[0], w_[1]
+                        elif y.kind == "DeclStmt":
+                            for d_ in y.get("decls", []):
+                                if "init" in d_ and any(z.kind == "CXXMemberCallExpr" and z.callee and z.callee["n"] == "size"
+                                                        for z in [f.node(d_["init"])] + list(f.node(d_["init"]).walk())):
+                                    sized.add(("v", d_["d"]))
+                        if tgt_ is not None and any(z.kind == "CXXMemberCallExpr" and z.callee and z.callee["n"] == "size"
+                                                    for z in [src_] + list(src_.walk())):
+                            sized.add(tuple(tgt_))
+                    for b in args:
+                        if b is a:
+                            continue
+                        for z in [b] + list(b.walk()):
+                            if z.kind == "DeclRefExpr" and ("v", z.d.get("d")) in sized:
+                                with_len = True
+                            if z.kind == "MemberExpr" and path(z) and tuple(path(z)) in sized:
+                                with_len = True
                 if not with_len:
                     bad = (c, ds[0])
         ctx.inst(rule, label, bad is None, (bad[0] if bad else f).loc,
